@@ -88,12 +88,14 @@ Proof.
     - cbn in Hm. destruct (a_bad (after_step true m x)) eqn:Hb; [discriminate|].
       destruct pre as [|y pre]; cbn in E; injection E as E1 E; subst x.
       + destruct Hc as [Hc|[ok []]].
-        destruct e; try reflexivity; cbn in Hb; destruct (a_closed m); try congruence; discriminate.
+        destruct m as [mc mm ms mar mpe mb]; cbn in Hc.
+        destruct e; try reflexivity; cbn in Hb; destruct mc; try congruence; discriminate.
       + eapply IH; [exact Hm|exact E|].
         destruct Hc as [Hc|[ok [Hc|Hc]]].
-        * left. destruct y; cbn; try exact Hc; try discriminate;
-          destruct (a_closed m); try congruence; cbn; discriminate.
-        * subst y. left. cbn. discriminate.
+        * left. destruct m as [mc mm ms mar mpe mb]; cbn in Hc.
+          destruct y; cbn; try exact Hc; try discriminate;
+          destruct mc; try congruence; cbn; discriminate.
+        * subst y. left. destruct m as [mc mm ms mar mpe mb]. cbn. discriminate.
         * right. eauto. }
   intros H pre e suf ok E Hin. eapply G; eauto.
 Qed.
@@ -135,15 +137,15 @@ Proof.
     [|vm_compute in E; discriminate].
   apply find_reach in E. destruct E as [Hr Hf]. exists s.
   apply andb_prop in Hf. destruct Hf as [Hf H3]. apply andb_prop in Hf. destruct Hf as [H1 H2].
-  apply Nat.eqb_eq in H3. destruct (s_pc s) as [| | | | | | | | | |[|[|]]| | | | | | | | | | |]; try discriminate.
-  auto.
+  apply Nat.eqb_eq in H3. destruct (s_pc s); try discriminate.
+  destruct i as [|[|]]; try discriminate. auto.
 Qed.
 
 (** ... and the execution does reach the end: both calls return *)
 Example ex_terminates :
   model_accepts true ex_l (ex_tr ++ [EImplClose 1; EImplClose 1; EDisc; ESubRet RCanceled; ECloseRet true])
   <> inl 0 /\
-  check_case (true, ex_l, ex_tr ++ [EImplClose 1; EImplClose 1; EDisc; ESubRet RCanceled; ECloseRet true]) = [].
+  check_case (true, true, ex_l, ex_tr ++ [EImplClose 1; EImplClose 1; EDisc; ESubRet RCanceled; ECloseRet true]) = [].
 Proof. split; [vm_compute; discriminate|vm_compute; reflexivity]. Qed.
 
 (** hypotheses of [close_subscribe_terminate_base] *)
@@ -282,7 +284,7 @@ Qed.
 Definition mq (s : st) : nat :=
   match s_pc s with
   | SFin => 0 | SRet _ => 1 | SDone => 2 | SCtxChk => 3 | SDisc => 4
-  | SFacChk => 5 | SFactory => 6 | SInit => 7 | _ => 8
+  | SFacChk => 5 | SFactory => 6 | SClear => 7 | SInit => 8 | _ => 9
   end.
 
 Lemma sticky_sstep sc s l s1 :
@@ -306,12 +308,13 @@ Qed.
 (** Once some Close call on a ReconnectClient has returned: this stays so and
     [p.closed] stays set whatever is called afterwards; the application is
     handed nothing any more; and every later Subscribe call returns after at
-    most 7 steps of its own (initDone, one constructor call that fails on the
-    cancelled context, disconnect, context check, return) without a backoff
+    most 8 steps of its own (initDone, re-opening the inner client, one
+    constructor call that fails on the cancelled context, disconnect, context
+    check, return) without a backoff
     sleep -- for every script, schedule and sequence of further calls. *)
 Theorem closed_is_sticky sc s :
   reach true sc s -> c_done s = true ->
-  r_closed s = true /\ emits (s_pc s) = false /\ mq s <= 8 /\
+  r_closed s = true /\ emits (s_pc s) = false /\ mq s <= 9 /\
   (forall l s1, In (l, s1) (step true sc s) -> c_done s1 = true /\ r_closed s1 = true) /\
   (forall l s1, In (l, s1) (sstep true sc s) -> is_call l = false ->
      mq s1 < mq s /\ (forall e, l = Some e -> is_handler e = false)).
@@ -327,7 +330,7 @@ Qed.
 (** a second Subscribe after Subscribe/Close, and a third one: the recording is
     accepted, every call returns, nothing is delivered after the Close *)
 Example ex_sequence_of_calls :
-  check_case (true, ex_l,
+  check_case (true, true, ex_l,
               ex_tr ++ [EImplClose 1; EImplClose 1; EDisc; ESubRet RCanceled; ECloseRet true;
                         ESubCall; EFactory 2; EDisc; ESubRet RCanceled;
                         ECloseCall; EImplClose 1; ECloseRet true;
@@ -351,32 +354,32 @@ Example ex_k_after_rejects_delivery_by_later_subscribe :
                 ESubCall; EFactory 1; EImplSub 1; ERecv 1 0; EConn] = Some 10.
 Proof. vm_compute. reflexivity. Qed.
 
-(** * DEFECT C18_1: at_most_one_after_close fails on the code as it is now *)
+(** * DEFECT C18_1 (fixed by /repo 4c160ca): regression witness of the unpatched variant *)
 
 Definition kf1_l : list attempt :=
   [ {| a_init := true; a_sub := true; a_items := [IMsg 1; IEof] |};
     {| a_init := true; a_sub := true; a_items := [IMsg 1; IMsg 1; IMsg 1; IEof] |} ].
 
-(** recorded from the unchanged code (corpus/C18/kf1_close_during_second_connect.json) *)
+(** recorded from the code before the patch *)
 Definition kf1_tr : list ev :=
   [ESubCall; EFactory 0; EImplSub 0; ERecv 0 0; EConn; EUpd 0 0 0; ERecv 0 1; ESubRet RNil;
    ESubCall; EFactory 1; ECloseCall; EImplClose 0; ECloseRet true; EImplSub 1; EImplClose 0;
    ERecv 1 0; EConn; EUpd 1 0 0; ERecv 1 1; EUpd 1 1 0; ERecv 1 2; EUpd 1 2 0; ERecv 1 3;
    ESubRet RNil].
 
-(** A bare client that already served one Subscribe: Close arrives while the
-    second Subscribe is connecting, returns nil, and three whole messages are
-    delivered afterwards.  The trace is one of the model of the code as it is
-    now, lies in known-finding class 1, and fails the tag-5 monitor. *)
-Theorem at_most_one_after_close_refuted :
-  exists s, run (step_now false (sc_of kf1_l)) init kf1_tr s /\
-            k_after false kf1_tr = Some 19 /\ known_class false kf1_l kf1_tr = 1%N.
-Proof.
-  destruct (model_accepts false kf1_l kf1_tr) as [i|ss] eqn:E; [vm_compute in E; discriminate|].
-  destruct (model_accepts_sound _ _ _ _ E) as [s Hs]. exists s.
-  split; [exact Hs|]. split; vm_compute; reflexivity.
-Qed.
+(** what the patched code does on the same script and Close timing *)
+Definition kf1_tr_fixed : list ev :=
+  [ESubCall; EFactory 0; EImplSub 0; ERecv 0 0; EConn; EUpd 0 0 0; ERecv 0 1; ESubRet RNil;
+   ESubCall; EFactory 1; ECloseCall; EImplClose 0; ECloseRet true; EImplSub 1; EImplClose 0;
+   EImplClose 1; ESubRet RNil].
 
-(** ... and it is not a trace of [step], about which the theorems speak *)
-Example kf1_outside_step : model_accepts_strict false kf1_l kf1_tr = inl 10.
-Proof. vm_compute. reflexivity. Qed.
+(** A bare client that already served one Subscribe; Close arrives while the
+    second Subscribe is connecting and returns nil.  Before the patch three
+    whole messages were delivered afterwards: that recording fails the tag-5
+    monitor, is a "stale close" recording, and is not a trace of the model any
+    more; the recording of the patched code is accepted and passes K_P. *)
+Theorem at_most_one_after_close_refuted :
+  k_after false kf1_tr = Some 19 /\ stale_close 0 0 kf1_tr = true /\
+  model_accepts false kf1_l kf1_tr = inl 15 /\
+  check_case (false, true, kf1_l, kf1_tr_fixed) = [].
+Proof. repeat split; vm_compute; reflexivity. Qed.
